@@ -223,11 +223,13 @@ def run(chk):
         ids = sorted(c["id"] for c in cases if not meta[c["id"]][0]["rejected"]) + ["base-%d-0" % ri for ri in range(nrepos)]
         rng.shuffle(ids)
         det_tr, run_tr = {}, {}
-        for cid in ids[:100 if quick else 1000]:
+        for k_, cid in enumerate(ids):
             evs = runtrace.read_events(os.path.join(tdir, "cli-%s.ndjson" % cid))
             d = runtrace.detect_trace(evs)
             if d:
-                det_tr[cid] = d
+                det_tr[cid] = d        # every recorded detector loop (validated in chunks by one TLC process each)
+            if k_ >= (100 if quick else 1000):
+                continue               # TraceRun: a sample (one JVM per run)
             r = (ares.get(cid) or bres.get(cid))
             t = runtrace.run_trace(evs, r["exit"], "error" if r["outcome"] == "error" else "ok", bool(r.get("report")), True)
             if t and len(run_tr) < (40 if quick else 400):
@@ -237,7 +239,7 @@ def run(chk):
             orders.add(json.dumps([e["fires"] for e in d if e["ev"] == "visit_block"]))
         chk.notes["distinct_visiting_orders_observed"] = len(orders)
         for module, trs in (("TraceDetect", det_tr), ("TraceRun", run_tr)):
-            for cid, (ok, diag, states, rc_) in runtrace.validate_many(module, trs).items():
+            for cid, (ok, diag, states, rc_) in (runtrace.validate_detect(trs) if module == "TraceDetect" else runtrace.validate_many(module, trs)).items():
                 chk.traces += 1
                 chk.states += states
                 chk.transitions += states
